@@ -513,7 +513,11 @@ def check_fuzzy(case, stats: Stats):
 NESTED = ['[c for o in orders for c in o.item]', 'len([c for o in orders for c in o.item])', 'sum(1 for o in orders for c in o.item)',
           'sum(r.amount for o in orders for r in receipts if r.amount >= o.amount)', '[x for o in orders for x in [r.amount for r in receipts if r.amount >= o.amount]]',
           'len([1 for o in orders for r in receipts for c in r.item if r.qty >= o.qty])', '[o.amount + r.amount for o in orders for r in receipts]',
-          'sum(o.qty for o in orders for c in o.item if o.amount > 10)']
+          'sum(o.qty for o in orders for c in o.item if o.amount > 10)',
+          # any() / all() / next() stop at the deciding row: a name bound by := inside them holds THAT row's value afterwards
+          # (and / or give Booleans in the rule language: every shape ends in a comparison)
+          'any((hit := r.amount) > 10 for r in orders) and hit > 10', 'all((seen := r.amount) < 100 for r in orders) or seen >= 100', 'next((first := r.qty) for r in orders if r.amount > 0) + first',
+          'any((hit := r.qty) >= 2 for r in receipts) and hit >= 2']
 nested_st = st.fixed_dictionaries({'kind': st.just('nested'), 'rows': lang.rows_case, 'txn': lang.txn_case})
 
 
@@ -524,7 +528,7 @@ def check_nested(case, stats):
     py_ns = {k: [NS(**r) for r in v] for k, v in rows.items()}
     for src in NESTED:
         try:
-            exp = ('val', eval(src, dict(py_ns, __builtins__={'len': len, 'sum': sum, 'max': max})))  # one namespace: nested scopes of the comprehension see it
+            exp = ('val', eval(src, dict(py_ns, __builtins__={'len': len, 'sum': sum, 'max': max, 'any': any, 'all': all, 'next': next})))  # one namespace: nested scopes of the comprehension see it
         except Exception as e:
             exp = ('err', type(e).__name__)
         got = tally_eval(src, txn0, {}, rows)
